@@ -25,7 +25,7 @@ func wrapInterval(i theory.Interval) bool {
 
 func checkC05(c *core.Ctx) {
 	c.Rule("progressions from the piece model (roots and basses on 1..7 natural, flattened or sharpened, any dictionary symbol, rests, metadata, 0..3 key changes incl. on rests and on the first chord) rendered once with degree numbers and once with note names in a random start key (a third of them with the unicode accidental signs); `text conv degree` and `text conv syllable --key K` must print the same instances; " +
-		"and the same instances played with --key K1 and --key K2 must differ only by the tonic distance on every pitch sounded while the initial key is in force and by the key signature at tick 0 (all 28x28 key pairs in thorough); " +
+		"and the same instances played with --key K1 and --key K2 must differ only by the tonic distance on every pitch sounded while the initial key is in force and by the key signature at tick 0 (all 28x28 key pairs in thorough), on 1..11 tracks compared track by track, every fourth case through `write conv -c cmt --key K | write`; " +
 		"non-trivial = progression with an altered root, a bass and a key change; distinct by degree text")
 	c.Assume("model.NoteFor spells the note for an interval with at most one accidental (cases needing a double accidental are skipped and counted)", "yaml.v3 as reader", "smfdec")
 
